@@ -432,20 +432,36 @@ int32_t tls13Verify(psPool_t *pool,
 #  ifdef USE_ECC
     case sigalg_ecdsa_secp256r1_sha256:
         cryptoLayerSigAlg = OID_SHA256_ECDSA_SIG;
-        psAssert(pubKey->key.ecc.curve->curveId == IANA_SECP256R1);
+        if (pubKey->type != PS_ECC || pubKey->key.ecc.curve == NULL ||
+                pubKey->key.ecc.curve->curveId != IANA_SECP256R1)
+        {
+            goto out_key_mismatch;
+        }
         break;
     case sigalg_ecdsa_secp384r1_sha384:
         cryptoLayerSigAlg = OID_SHA384_ECDSA_SIG;
-        psAssert(pubKey->key.ecc.curve->curveId == IANA_SECP384R1);
+        if (pubKey->type != PS_ECC || pubKey->key.ecc.curve == NULL ||
+                pubKey->key.ecc.curve->curveId != IANA_SECP384R1)
+        {
+            goto out_key_mismatch;
+        }
         break;
     case sigalg_ecdsa_secp521r1_sha512:
         cryptoLayerSigAlg = OID_SHA512_ECDSA_SIG;
-        psAssert(pubKey->key.ecc.curve->curveId == IANA_SECP521R1);
+        if (pubKey->type != PS_ECC || pubKey->key.ecc.curve == NULL ||
+                pubKey->key.ecc.curve->curveId != IANA_SECP521R1)
+        {
+            goto out_key_mismatch;
+        }
         break;
 #  endif
 #  ifdef USE_RSA
     case sigalg_rsa_pss_pss_sha256:
     case sigalg_rsa_pss_rsae_sha256:
+        if (pubKey->type != PS_RSA)
+        {
+            goto out_key_mismatch;
+        }
         cryptoLayerSigAlg = OID_SHA256_RSA_SIG;
         opts.rsaPssHashAlg = PKCS1_SHA256_ID;
         opts.rsaPssSaltLen = SHA256_HASH_SIZE;
@@ -453,6 +469,10 @@ int32_t tls13Verify(psPool_t *pool,
         break;
     case sigalg_rsa_pss_pss_sha384:
     case sigalg_rsa_pss_rsae_sha384:
+        if (pubKey->type != PS_RSA)
+        {
+            goto out_key_mismatch;
+        }
         cryptoLayerSigAlg = OID_SHA384_RSA_SIG;
         opts.rsaPssHashAlg = PKCS1_SHA384_ID;
         opts.rsaPssSaltLen = SHA384_HASH_SIZE;
@@ -460,6 +480,10 @@ int32_t tls13Verify(psPool_t *pool,
         break;
     case sigalg_rsa_pss_pss_sha512:
     case sigalg_rsa_pss_rsae_sha512:
+        if (pubKey->type != PS_RSA)
+        {
+            goto out_key_mismatch;
+        }
         cryptoLayerSigAlg = OID_SHA512_RSA_SIG;
         opts.rsaPssHashAlg = PKCS1_SHA512_ID;
         opts.rsaPssSaltLen = SHA512_HASH_SIZE;
@@ -469,7 +493,10 @@ int32_t tls13Verify(psPool_t *pool,
 #ifdef USE_ED25519
     case sigalg_ed25519:
         cryptoLayerSigAlg = OID_ED25519_KEY_ALG;
-        psAssert(pubKey->type == PS_ED25519);
+        if (pubKey->type != PS_ED25519)
+        {
+            goto out_key_mismatch;
+        }
         break;
 #endif
     default:
@@ -503,6 +530,14 @@ int32_t tls13Verify(psPool_t *pool,
     {
         return PS_VERIFICATION_FAILED;
     }
+
+out_key_mismatch:
+    /* The peer chooses the SignatureScheme of its CertificateVerify; it
+       must fit the public key of the certificate it sent. */
+    psTraceIntInfo("Signature algorithm %u does not match the peer's key\n",
+            sigAlg);
+    psFree(tbs, pool);
+    return PS_VERIFICATION_FAILED;
 }
 
 # endif /* USE_IDENTITY_CERTIFICATES */
